@@ -53,7 +53,7 @@ class Obligation:
         self.id = d["id"]
         self.tier = d.get("tier", "quick")
         self.timeout = int(d.get("timeout", "300"))
-        self.mem_gb = int(d.get("mem", "10"))
+        self.mem_gb = int(d.get("mem", "16"))
         self.unwind = d.get("unwind")
         self.unwindset = d.get("unwindset")
         self.bound = d.get("bound", "")
